@@ -135,8 +135,8 @@ impl<'de, 'c, 'g> DeserializeSeed<'de> for Cap<'c, 'g> {
 				Eff::Duration => return d.deserialize_seq(DurationV { cap: &self }),
 				Eff::Array => {
 					return match self.shape_elems() {
-						Some(es) => d.deserialize_tuple_struct("T", es.len(), ArrayV { cap: &self }),
-						None => d.deserialize_seq(ArrayV { cap: &self }),
+						Some(es) => d.deserialize_tuple_struct("T", es.len(), ArrayV { cap: &self, exactly: Some(es.len()) }),
+						None => d.deserialize_seq(ArrayV { cap: &self, exactly: None }),
 					}
 				}
 				_ => {}
@@ -174,10 +174,10 @@ impl<'de, 'c, 'g> DeserializeSeed<'de> for Cap<'c, 'g> {
 				_ => d.deserialize_any(ScalarV { want: "dec", cap: &self }),
 			},
 			Eff::Array if alt => match self.shape_elems() {
-				Some(es) => d.deserialize_tuple(es.len(), ArrayV { cap: &self }),
-				None => d.deserialize_seq(ArrayV { cap: &self }),
+				Some(es) => d.deserialize_tuple(es.len(), ArrayV { cap: &self, exactly: Some(es.len()) }),
+				None => d.deserialize_seq(ArrayV { cap: &self, exactly: None }),
 			},
-			Eff::Array => d.deserialize_seq(ArrayV { cap: &self }),
+			Eff::Array => d.deserialize_seq(ArrayV { cap: &self, exactly: None }),
 			Eff::Map => d.deserialize_map(MapV { cap: &self }),
 			Eff::Record if alt => d.deserialize_map(RecordV { cap: &self }),
 			Eff::Record => d.deserialize_struct("", &[], RecordV { cap: &self }),
@@ -576,6 +576,9 @@ impl<'de, 'a, 'c, 'g> Visitor<'de> for DurationV<'a, 'c, 'g> {
 
 struct ArrayV<'a, 'c, 'g> {
 	cap: &'a Cap<'c, 'g>,
+	/// a tuple-like target (tuples, `[T; N]`, tuple structs): asks for exactly that many elements and never for one more - what serde's own
+	/// visitors for those types do
+	exactly: Option<usize>,
 }
 impl<'de, 'a, 'c, 'g> Visitor<'de> for ArrayV<'a, 'c, 'g> {
 	type Value = J;
@@ -592,9 +595,13 @@ impl<'de, 'a, 'c, 'g> Visitor<'de> for ArrayV<'a, 'c, 'g> {
 		// every element takes step 0: ignore paths address "all elements"
 		let shapes = self.cap.shape_elems();
 		loop {
+			if self.exactly == Some(out.len()) {
+				break;
+			}
 			let shape = shapes.and_then(|es| es.get(out.len()));
 			match s.next_element_seed(self.cap.child_shaped(items, 0, shape))? {
 				Some(v) => out.push(v),
+				None if self.exactly.is_some() => return Err(de_err(format!("invalid length {}, expected a tuple of size {}", out.len(), self.exactly.unwrap()))),
 				None => break,
 			}
 		}
